@@ -51,7 +51,95 @@ def irJson (g : LGraph) (withLeaves : Bool) : Json :=
         Json.mkObj [("prefix", toJson l.1), ("order", toJson l.2), ("label", labelJson (irLeafLabel g l))]).toArray)]
     else []))
 
+/-- Python's renderings (`str`) of the label items of one graph, as the harness read them off the
+implementation's own expressions: per node item / edge item the string that `_build_label` joins, and the
+rendering of an absent edge (`"0:" + ":".join("" for _ in edge_attrs)`). -/
+structure StrTbl where
+  node : List (List Val × String)
+  edge : List (List Val × String)
+  zero : String
+
+def lookupStr (t : List (List Val × String)) (k : List Val) : String :=
+  match t.find? (fun p => decide (p.1 = k)) with
+  | some p => p.2
+  | none => "\u0000"
+
+def tblConsistent (t : List (List Val × String)) : Bool :=
+  t.all fun p => t.all fun q => !(decide (p.1 = q.1)) || p.2 == q.2
+
+def renderNodes (t : StrTbl) (items : List (List Val)) : String := "|".intercalate (items.map (lookupStr t.node))
+
+/-- `_build_label` as a string: `node_segment + "||" + edge_segment`. -/
+def renderLabel (t : StrTbl) (l : IRLabel) : String :=
+  renderNodes t l.nodes ++ "||" ++ "|".intercalate (l.edges.map fun b =>
+    match b with
+    | none => t.zero
+    | some k => "1:" ++ lookupStr t.edge k)
+
+/-- `_build_partial_label`: `node_segment + "{" * 1000`. -/
+def renderPartial (t : StrTbl) (seg : List (List Val)) : String :=
+  renderNodes t seg ++ String.ofList (List.replicate 1000 '{')
+
+/-- Python's `label < best["label"]` (code-point order of the two strings). -/
+def ltStr (t : StrTbl) (a b : IRLabel) : Bool := decide (renderLabel t a < renderLabel t b)
+/-- Python's `partial_label > best["label"]`. -/
+def pgtStr (t : StrTbl) (seg : List (List Val)) (best : IRLabel) : Bool := decide (renderLabel t best < renderPartial t seg)
+
+def strTblOfJson (g : LGraph) (j : Json) : Except String StrTbl := do
+  let ns ← Driver.getArr j "nodes"
+  let node ← ns.toList.mapM fun x => do
+    let a ← (fromJson? x : Except String (Array Json))
+    if a.size ≠ 2 then throw "strings.nodes entry"
+    let v ← (fromJson? a[0]! : Except String Nat)
+    let str ← (fromJson? a[1]! : Except String String)
+    pure (irNodeLabKey (g.attrs v), str)
+  let es ← Driver.getArr j "edges"
+  let edge ← es.toList.mapM fun x => do
+    let a ← (fromJson? x : Except String (Array Json))
+    if a.size ≠ 3 then throw "strings.edges entry"
+    let u ← (fromJson? a[0]! : Except String Nat)
+    let v ← (fromJson? a[1]! : Except String Nat)
+    let str ← (fromJson? a[2]! : Except String String)
+    pure (irEdgeLabKey ((g.edge? u v).getD []), str)
+  pure { node, edge, zero := ← Driver.getStr j "zero" }
+
+/-- Answer of `canon.irCapped` (`canonical_form(G, return_perm=True, max_depth=d)`): the model
+`irCanonicalFormCappedWith` under the model's structured label order, or — with `strings` — under Python's
+own order of the rendered label strings. -/
+def irCappedJson (g : LGraph) (d : Nat) (tbl : Option StrTbl) (withRanks : Bool) : Json :=
+  let lt : IRLabel → IRLabel → Bool := match tbl with | some t => ltStr t | none => IRLabel.lt
+  let pgt : List (List Val) → IRLabel → Bool := match tbl with | some t => pgtStr t | none => irPartialGt
+  let run := irCanonCappedWith lt pgt true g d
+  let res : List (String × Json) :=
+    match irCanonicalFormCappedWith lt pgt true g d with
+    | .error .notFound => [("error", Json.str "RuntimeError"), ("early_stop", toJson run.2)]
+    | .ok (cg, o, early) =>
+      [("error", Json.null), ("early_stop", toJson early), ("order", toJson o), ("best", bestJson run.1),
+       ("graph", Driver.graphToJson cg)]
+  Json.mkObj (res ++
+    (match tbl with
+     | some t => [("table_ok", toJson (tblConsistent t.node && tblConsistent t.edge))]
+     | none => []) ++
+    (if withRanks then
+      let leaves := irLeaves g (g.nodes.length + 1) (irInitialPartition g) []
+      let labs := leaves.map (irLeafLabel g)
+      [("depth", toJson (irDepth g)),
+       ("leaf_depths", toJson (leaves.map irLeafDepth)),
+       ("full_order", toJson (match irCanonWith lt pgt true g with | some (_, o) => o | none => []))] ++
+      (match tbl with
+       | some t => [("leaf_strings", toJson (labs.map (renderLabel t)))]
+       | none => [])
+    else []))
+
 /-- Commands
+* `canon.irCapped {graph, max_depth, strings?, ranks?}` → the model of `canonical_form(G, return_perm=True,
+  max_depth=d)` (`irCanonicalFormCappedWith`): `{"error": "RuntimeError", "early_stop"}` when no leaf is reached,
+  else `{"error": null, "early_stop", "order", "best": {order, label}, "graph"}`.  Label order: the model's
+  structured order, or with `"strings": {"nodes": [[v, str]…], "edges": [[u, v, str]…], "zero": str}` Python's
+  order of the rendered labels (the model is parametric in the order; `table_ok`: equal items have equal
+  renderings).  With `"ranks": true` also `depth` (`irDepth`), `leaf_depths` (per leaf of the unpruned tree
+  in visiting order), `full_order` (`best["perm"]` of the uncapped search in the order used) and, with `strings`, `leaf_strings`
+  (the rendered leaf labels, to be compared with the implementation's own label strings)
 * `canon.ir {graph, leaves?}` → the model of the exact back-end, stage by stage:
   `initial` (`_initial_partition`), `refined` (`_refine` of it), `best` (`{order, label}` of the
   search with pruning, `null` if none), `best_noprune`, `order` (`best["perm"]`), `graph`
@@ -84,6 +172,13 @@ def handle : Driver.Handler := fun cmd j =>
     let g ← Driver.getGraph j "graph"
     let wl := match j.getObjValAs? Bool "leaves" with | .ok b => b | .error _ => false
     pure (irJson g wl)
+  | "canon.irCapped" => some do
+    let g ← Driver.getGraph j "graph"
+    let wr := match j.getObjValAs? Bool "ranks" with | .ok b => b | .error _ => false
+    let tbl ← match j.getObjVal? "strings" with
+      | .ok js => (strTblOfJson g js).map some
+      | .error _ => pure none
+    pure (irCappedJson g (← Driver.getNat j "max_depth") tbl wr)
   | "canon.ir_refine" => some do
     let g ← Driver.getGraph j "graph"
     let arr ← Driver.getArr j "partition"
